@@ -32,9 +32,12 @@ Print Assumptions c02_where_parses.
    clause.Or / clause.Not expressions of any depth given to Where or Or ([cdom]: non-empty
    operand lists, raw leaves as above, no single-operand clause.Or directly under clause.And or at
    the top, clause.Not over one operand that is not a clause.And), and groups db.Where(db...)
-   of such units nested to any depth; Not applied to flat units and to groups of two or more
-   members that contain an OR alternative (negated as a whole) or a member with a structured
-   negation (every member negated) — the remaining Not-over-group shape is the known finding;
+   of such units nested to any depth; Not applied to flat units, to expression nests ([nneg]:
+   a clause.And nest of several members needs a member with a structured negation, any other nest
+   is negated as a whole; a single-operand clause.And counts as its operand) and to groups of two
+   or more members that contain an OR alternative (negated as a whole) or a member with a
+   structured negation (every member negated) — the remaining Not-over-AND shape is the known
+   finding;
    groups and chains not starting with Or) — the WHERE text gorm renders parses under SQL precedence, and for EVERY row
    valuation its Kleene value equals the value of the specification: the units' meanings
    combined left to right with AND (Where, Not) and OR (Or) under SQL precedence, Not reading a
